@@ -76,6 +76,58 @@ theorem count_link_of_table (classes : List ClassSpec) (fuel cls : Nat) (hist : 
     exact ⟨nc, pc, ac, namesc, nl, pl, ccls, d, nm, g, al, namesl, p, q, hjc, hjl, h1, h2, h3, h4⟩
   · exact absurd hshape (by simp)
 
+/-! ### what one link leaves in the file, with the link's shape read off the class table -/
+
+def isPlainAt (c : ClassSpec) (j : Nat) : Bool :=
+  match c.links[j]? with
+  | some (_, .plain _ _ _) => true
+  | _ => false
+
+def isObjsAt (c : ClassSpec) (j : Nat) : Bool :=
+  match c.links[j]? with
+  | some (_, .objs _ _ _ _ _ _ _) => true
+  | _ => false
+
+/-- after a commit the retriever of plain link `j` holds the value the object handed to it -/
+theorem plain_of_table (classes : List ClassSpec) (fuel cls : Nat) (hist : List Nat) (vals : List Val) (s s' : Sections)
+    (c : ClassSpec) (j : Nat) (v : Val)
+    (hsafe : tableSafe classes (fuel + 1) cls hist.length = true)
+    (h : commitObj classes (fuel + 1) cls hist (.strct vals) s = .ok s')
+    (hc : classes[cls]? = some c) (hshape : isPlainAt c j = true) (hv : vals[j]? = some v) :
+    ∃ a path acts names p, c.links[j]? = some (a, .plain path acts names) ∧ resolve hist path = some p ∧
+      getAt p s'.root = some v := by
+  unfold isPlainAt at hshape
+  split at hshape
+  · rename_i a path acts names hj
+    have hh := commit_holds classes (fuel + 1) cls hist (.strct vals) s s' hsafe h
+    simp only [Holds, hc] at hh
+    have h1 := hh _ (mem_zip_of_getElem? c.links vals j _ _ hj hv)
+    simp only [linkHolds] at h1
+    obtain ⟨p, hp, hg⟩ := h1
+    exact ⟨a, path, acts, names, p, hj, hp, hg⟩
+  · exact absurd hshape (by simp)
+
+/-- after a commit the struct list of object-list link `j` has one record per object -/
+theorem list_of_table (classes : List ClassSpec) (fuel cls : Nat) (hist : List Nat) (vals : List Val) (s s' : Sections)
+    (c : ClassSpec) (j : Nat) (os : List Val)
+    (hsafe : tableSafe classes (fuel + 1) cls hist.length = true)
+    (h : commitObj classes (fuel + 1) cls hist (.strct vals) s = .ok s')
+    (hc : classes[cls]? = some c) (hshape : isObjsAt c j = true) (hv : vals[j]? = some (.list os)) :
+    ∃ a path ccls d nm g acts names q, c.links[j]? = some (a, .objs path ccls d nm g acts names) ∧
+      resolve hist path = some q ∧ ListLen q os.length s'.root := by
+  unfold isObjsAt at hshape
+  split at hshape
+  · rename_i a path ccls d nm g acts names hj
+    have hh := commit_holds classes (fuel + 1) cls hist (.strct vals) s s' hsafe h
+    simp only [Holds, hc] at hh
+    have h2 := hh _ (mem_zip_of_getElem? c.links vals j _ _ hj hv)
+    simp only [linkHolds] at h2
+    obtain ⟨q, os', hq, hos, hlen, _⟩ := h2
+    have : os' = os := by injection hos with e; exact e.symm
+    subst this
+    exact ⟨a, path, ccls, d, nm, g, acts, names, q, hj, hq, hlen⟩
+  · exact absurd hshape (by simp)
+
 /-! ### the hook law relative to a domain -/
 
 /-- the hook law on the objects of a domain `D` (the objects the class can hand to `push` without raising) -/
